@@ -38,6 +38,14 @@ CLAIMED["C08"] = (
     "DESIGN.md §5 C08",
 )
 
+CLAIMED["C11"] = (
+    "model_checking",
+    "explicit-state BFS over the real RestartingDeferral driven through the daemon's own glue against a real TableManager, pending-set reference oracle in every state",
+    "All histories up to the depth bound of peer-established (every subset of the configured GR families, including none), End-of-RIB (any family, repeated), peer-withdrawn (established or failed attempt), timer expiry, interleaved with local/peer route inserts and removes on colliding prefixes, for 3 (thorough: 4) peer/family configurations including a peer without graceful restart. Each event goes through the real PeerSession::process_effects / process_restarting_outputs / gr_selection_deferral_timer_expired code and a 2-shard TableManager; a registered neighbour channel observes every NlriChange. In every state: nothing of a still-deferred family reaches the neighbours, each prefix of a released family has been announced exactly once since it last changed, the restarting flag is cleared iff no peer is pending or the timer fired, and the timer is armed when the first helper establishes.",
+    "The PeerSession used is the repository's own socket-less test constructor (new_for_test); the OPEN exchange itself is not part of this check. 128-bit fingerprints.",
+    "DESIGN.md §5 C11",
+)
+
 REASON_NOT_YET = "no check registered yet in this revision (machinery for it is designed in DESIGN.md §5 but not built/validated); not claimed"
 
 ALL = ["C%02d" % i for i in range(1, 21)]
